@@ -354,8 +354,9 @@ def r5(ck, F):
                 if p.end != "return":
                     continue
                 some = any(option_test(c) == (("field", ("arg", 1), "inner"), True) for c in p.conds)
-                if some != (cs[0] in p.blocks):
-                    ok = False
+                tested = any(option_test(c)[0] == ("field", ("arg", 1), "inner") for c in p.conds)
+                if some != (cs[0] in p.blocks) or not tested:
+                    ok = False      # (a return before `inner` is even looked at skips the notification for an enabled span)
         if ok:
             ck.ok("C03.R5", "%s notifies the collector exactly when the span is enabled" % fn.rsplit("::", 1)[1], fn=fn)
         else:
